@@ -126,3 +126,20 @@ check("C15", "model_checking",
       TRUST + " Depth-bounded (reported as a cap).",
       "explicit-state BFS over operation sequences against a dictionary reference model", "E1-explicit-state + VLoop + E3-thread-scheduler",
       "DESIGN.md section 4 C15")
+
+ENGINES.append(dict(name="E4-fault-injector", path="/verif/mc/props/c07.py", serves_properties=["C07"],
+                    kind_free_text="twin-run fault injector: the fault-free run enumerates user-code call sites, each site (and pair) is made to raise and the run is compared with the twin"))
+
+check("C04", "exploration",
+      "Every short operation sequence (sync) and every environment script x schedule choice (async) over a machine whose actions raise, re-send "
+      "(send/send_events from inside actions and from entry actions during start), suspend, arm timers/services and have eventless follow-ups; "
+      "judged on reception order, exactly-once, FIFO, per-macrostep event attribution, bracket markers never separated by another reception.",
+      TRUST + " Thread preemption inside the sync drain loop is not part of this check.",
+      "exhaustive enumeration of operation sequences / stateless schedule exploration under a virtual clock", "E2-schedule-explorer + VLoop + E3-thread-scheduler",
+      "DESIGN.md section 4 C04")
+check("C07", "fault_enumeration",
+      "Every user-code call site of every step of the TREE(3) universal machines (two-marker lists) and of a built-in/nested-expansion machine is "
+      "made to raise (singly, in pairs in the thorough tier) and compared with the fault-free twin; every plugin hook occurrence, the subscriber "
+      "and emit listeners likewise; aborting faults at every position of the ABORT family with timer re-arm verified by virtual time.",
+      TRUST + " Faults are ordinary Exceptions.", "exhaustive fault-position enumeration against a fault-free twin run",
+      "E4-fault-injector + E1-explicit-state + VLoop + E3-thread-scheduler", "DESIGN.md section 4 C07")
